@@ -61,6 +61,13 @@ def is15(cr):
     return cr.split("|")[0] in C15_CLASSES
 
 
+def restrict(line, mine):
+    po = parse_out(line)
+    if po is None:
+        return line
+    return "L=%s P=%d I=%s" % (",".join(x for x in po[0] if mine(item_cls_rng(x)[0])), po[1], po[2])
+
+
 def load_probes(prop):
     """corpus/<prop>/probes.txt: `signature <TAB> title <TAB> escaped text` — inputs on which the code's
     rule and the property's wording are KNOWN to differ (see notes)"""
@@ -146,8 +153,12 @@ def run(ctx, prop, rule_text):
     ctx.phase("compare")
     keys = ["lint " + esc(t) for t in texts]
     nontriv = lambda c, a: a.startswith("L=") and not a.startswith("L= ")
-    ctx.compare("lint (real diagnostics request vs model)", keys, impl, model, nontrivial=nontriv)
-    ctx.compare("linttoks (real parser + analyzers on the token line vs model)", keys, impl_tk, model, nontrivial=nontriv)
+    mine = (lambda cr: is15(cr)) if prop == "C15" else (lambda cr: not is15(cr))
+    # C15 rests on the unused-variable analyzer alone: compare its items only; C16 ("nothing else is
+    # flagged") compares the whole response
+    view = (lambda l: restrict(l, mine)) if prop == "C15" else (lambda l: l)
+    ctx.compare("lint (real diagnostics request vs model)", keys, list(map(view, impl)), list(map(view, model)), nontrivial=nontriv)
+    ctx.compare("linttoks (real parser + analyzers on the token line vs model)", keys, list(map(view, impl_tk)), list(map(view, model)), nontrivial=nontriv)
 
     def fail(sig, what, i, extra=None):
         d = {"mode": "lint", "text": texts[i], "implementation": impl[i], "model": model[i], "specification": spec[i]}
@@ -158,7 +169,6 @@ def run(ctx, prop, rule_text):
             d.update(extra)
         ctx.oracle_fail(sig, what, d)
 
-    mine = (lambda cr: is15(cr)) if prop == "C15" else (lambda cr: not is15(cr))
     outside = 0
     parsed_impl = []
     for i, line in enumerate(impl):
